@@ -449,7 +449,8 @@ func mkMsg(flags uint8, hcap, ccap int) *vParser {
 	p.parse = func(w int, buf []byte, offs int) (int, ErrorHdr) { return ParseSIPMsg(buf, offs, &m[w], flags) }
 	// Reset deliberately keeps the caller-supplied buffer reference (Buf), as it
 	// keeps the caller-supplied arrays: the twin object gets the same one.
-	p.reset = func(w int) { m[w].Reset(); m[1-w].Buf = m[w].Buf }
+	p.reset = func(w int) { m[w].Reset() }
+	p.twin = func(w int) { m[1-w].Buf = m[w].Buf }
 	p.same = func() bool { return msgSame(&m[0], &m[1]) }
 	p.sameObs = func() bool { return msgObs(&m[0], &m[1]) }
 	p.shifted = func(k int) bool {
